@@ -1,7 +1,7 @@
 (* C07/Properties.v — property theorems only.  Model: C07/Model.v (the code after fix commits
    e89b171, 07b228c; with the known finding F-C07a, whose fix 311264d was reverted by 0819a3f). *)
 From Coq Require Import String Lia.
-From RM Require Import C06.Model C06.Proofs C06.Proofs5 C06.Driver C07.Model C07.Proofs C07.Proofs2 C07.Proofs3 C07.Proofs4 C07.Text C07.Proofs5 C07.Walker C07.Proofs6 C07.Proofs7 C07.Proofs11 C07.Proofs13 C07.Proofs8 C07.Proofs9 C07.Proofs10 C07.Proofs12 Gen.C07WinEval C07.Source C07.Proofs14 C07.Proofs15 C07.Proofs16 Gen.C07WinLine C07.Proofs17 C07.Proofs18 C07.WalkerFd C07.Proofs19 C07.Proofs20 C07.Driver C07.Proofs21 C07.Proofs22 C07.Proofs23 C07.Proofs24 C07.Proofs25 C07.Proofs26.
+From RM Require Import C06.Model C06.Proofs C06.Proofs5 C06.Driver C07.Model C07.Proofs C07.Proofs2 C07.Proofs3 C07.Proofs4 C07.Text C07.Proofs5 C07.Walker C07.Proofs6 C07.Proofs7 C07.Proofs11 C07.Proofs13 C07.Proofs8 C07.Proofs9 C07.Proofs10 C07.Proofs12 Gen.C07WinEval C07.Source C07.Proofs14 C07.Proofs15 C07.Proofs16 Gen.C07WinLine C07.Proofs17 C07.Proofs18 C07.WalkerFd C07.Proofs19 C07.Proofs20 C07.Driver C07.Proofs21 C07.Proofs22 C07.Proofs23 C07.Proofs24 C07.Proofs25 C07.Proofs26 C07.Proofs27.
 From RM Require C09.Grammar.
 From RM Require C08.Model C08.Proofs C08.WinModel C08.WinProofs C08.Tie.
 Open Scope Z_scope.
@@ -1115,3 +1115,20 @@ Theorem c07_src_walk_frame_by_file_record :
     src_walk_frame ops p E f s = cfi_fallback ops p E f s.
 Proof. exact src_walk_frame_by_file_record. Qed.
 Print Assumptions c07_src_walk_frame_by_file_record.
+
+(* c07_table_ascending's lookup as a selection RULE (the one the oracle's independent `select_ascending` implements): in
+   an address-sorted list of one kind the record answering x is the LAST one starting at or before x, provided it reaches
+   x as written; it is returned cut to end just before the next record's start (sel_asc). *)
+Theorem c07_table_ascending_rule :
+  forall l, Forall has_range l -> ascending l ->
+    exists t, win_table l = Ret t /\ forall x, C08.Model.rm_get t x = sel_asc l x.
+Proof. exact table_ascending_rule. Qed.
+Print Assumptions c07_table_ascending_rule.
+
+Example c07_nonvacuous_table_ascending_rule :
+  let A := mkWin 0 10 0 0 0 0 4 0 (AllocatesBasePointer false) in
+  let B := mkWin 1 9 0 0 0 0 8 0 (AllocatesBasePointer false) in
+  let C := mkWin 4 2 0 0 0 0 12 0 (AllocatesBasePointer true) in
+  sel_asc [A; B; C] 0 = Some (set_size A 1) /\ sel_asc [A; B; C] 3 = Some (set_size B 3) /\
+  sel_asc [A; B; C] 5 = Some C /\ sel_asc [A; B; C] 6 = None (* C stops short although A and B as written reach 6 *).
+Proof. vm_compute. repeat split; reflexivity. Qed.
